@@ -1,4 +1,59 @@
-import PintModel.Model.Enable
+import PintModel.Gen.ConfigUse
+/-!
+# C18 — an accepted configuration never crashes a later lint run
+
+What is decided here:
+
+* `validated_before_use` — over the table regenerated from `internal/config` on every run: every constructor call
+  whose error is dropped after the configuration was accepted (`x, _ := f(field)`, `Must*(field)`) has a call of the
+  same constructor family on the same field of the same settings type inside a `validate` method with the error
+  returned — with one listed exception that cannot crash (`Match.KeepFiringFor`: the zero value of the dropped result
+  is a duration match that is simply evaluated).
+* `dropped_error_is_safe` — why that is enough for pure constructors: a constructor is a function of its argument,
+  so if validation saw `ok v`, the later call with the error dropped yields the same `v`.
+* `mustExpand_total` — the one constructor that also depends on the rule (`TemplatedRegexp.Expand`): after fix
+  9274a61 `MustExpand` returns a pattern for every rule (the expansion's result or the never-matching pattern), so
+  the checks never see a nil regexp.
+
+The rest of the property (every block and option × hostile rule files) is decided by running generated
+configurations through `config.Load` and, when accepted, a full in-process lint under `recover`.
+-/
 namespace Pint.Props.C18
-theorem placeholder : True := trivial
+open Pint.Gen.ConfigUse
+
+def sameField (u v : Row) : Bool := v.typ == u.typ && v.field == u.field && v.fam == u.fam
+
+/-- dropped errors that no validate method covers, and why they cannot crash -/
+def exceptions : List (String × String × String) :=
+  [("Match", "KeepFiringFor", "durationMatch")]   -- IsMatch uses the zero durationMatch when parsing failed; no dereference
+
+def covered (u : Row) : Bool :=
+  validates.any (sameField u) || exceptions.contains (u.typ, u.field, u.fam)
+
+theorem validated_before_use : uses.all covered = true := by decide
+
+/-- the table is not trivially small: the extractor recognised the construction sites -/
+theorem table_not_empty : 35 ≤ uses.length ∧ 35 ≤ validates.length := by decide
+
+/-- a constructor with its error: `Except` in Go clothing -/
+def dropError {α : Type} (dflt : α) : Except String α → α
+  | .ok v => v
+  | .error _ => dflt
+
+/-- validation succeeded on `s` ⇒ constructing again from `s` and dropping the error gives the validated value -/
+theorem dropped_error_is_safe {α : Type} (ctor : String → Except String α) (dflt : α) (s : String) (v : α)
+    (h : ctor s = .ok v) : dropError dflt (ctor s) = v := by
+  simp [dropError, h]
+
+/-- `MustExpand` after the fix: total, whatever `Expand` does for the rule at hand -/
+def mustExpand {Re Rule : Type} (expand : Rule → Except String Re) (neverMatches : Re) (r : Rule) : Re :=
+  dropError neverMatches (expand r)
+
+theorem mustExpand_total {Re Rule : Type} (expand : Rule → Except String Re) (neverMatches : Re) (r : Rule) :
+    mustExpand expand neverMatches r = neverMatches ∨ expand r = .ok (mustExpand expand neverMatches r) := by
+  unfold mustExpand dropError
+  cases h : expand r with
+  | ok v => exact Or.inr rfl
+  | error e => exact Or.inl rfl
+
 end Pint.Props.C18
